@@ -62,7 +62,22 @@ def build_program(prog) -> tuple[Elaboratable, Built]:
         o = [("y", md["ow"])] if md["ow"] else []
         b.methods[md["id"]] = Method(name=md["id"], i=i, o=o)
     mdefs = {md["id"]: md for md in prog["methods"]}
+    groups = {}
     for al in prog.get("aliases", []):
+        if al.get("group"):
+            groups.setdefault(al["group"], []).append(al)
+    for gid, members in groups.items():
+        members.sort(key=lambda a: a["index"])
+        if len(members) != members[0]["size"]:
+            continue  # the collection was cut by shrinking: its members fall back to single aliases below
+        tgts = [b.methods[a["target"]] for a in members]
+        ms = Methods(len(members), name=gid, i=tgts[0].layout_in, o=tgts[0].layout_out)
+        ms.provide(tgts)
+        for a, mth in zip(members, ms):
+            b.methods[a["id"]] = mth
+    for al in prog.get("aliases", []):
+        if al["id"] in b.methods:
+            continue
         tgt = b.methods[al["target"]]
         if al.get("via") == "methods":
             ms = Methods(1, name=al["id"], i=tgt.layout_in, o=tgt.layout_out)
@@ -100,8 +115,13 @@ class Emitter:
         self.prog = prog
         self.b = built
         self.m = m
+        self.din_of = {}
 
-    def inp(self, iid):
+    def inp(self, iid, din=None):
+        if iid.startswith("d:"):  # a bit (or the two low bits) of the enclosing method's data_in
+            _, mid, bit = iid.split(":")
+            x = self.din_of[mid].x
+            return x[:2] if bit == "s" else x[int(bit)]
         return self.b.inputs[iid]
 
     def emit_list(self, nodes, din):
@@ -152,6 +172,7 @@ class Emitter:
 
         @def_method(m, meth, ready=ready, **kwargs)
         def _(arg):
+            emitter.din_of[n["id"]] = arg
             emitter.emit_list(n["body"], arg)
             if md["ow"]:
                 base = (arg.x + md["k"]) if md["iw"] else C(md["k"], md["ow"])
